@@ -1,10 +1,27 @@
 use crate::outcome::PropDef;
 
 pub mod c01;
+pub mod c02;
+pub mod c06;
+pub mod c07;
+pub mod c10;
+pub mod c11;
+pub mod c12;
 pub mod c15;
+pub mod c18;
 
 pub fn all() -> Vec<&'static PropDef> {
-    vec![&c01::PROP, &c15::PROP]
+    vec![
+        &c01::PROP,
+        &c02::PROP,
+        &c06::PROP,
+        &c07::PROP,
+        &c10::PROP,
+        &c11::PROP,
+        &c12::PROP,
+        &c15::PROP,
+        &c18::PROP,
+    ]
 }
 
 pub fn find(id: &str) -> Option<&'static PropDef> {
